@@ -41,6 +41,13 @@ func updateParse(
 	options.RegoVersion = version
 
 	module, err := rparse.ModuleWithOpts(fileURI, content, options)
+
+	// the file may have been deleted or renamed while it was being parsed: its module, refs and
+	// parse errors must not be re-created, or they outlive the file in the cache
+	if _, ok := cache.GetFileContents(fileURI); !ok {
+		return false, nil
+	}
+
 	if err == nil {
 		// if the parse was ok, clear the parse errors
 		cache.SetParseErrors(fileURI, []types.Diagnostic{})
